@@ -452,6 +452,17 @@ def explore_c13(rng, tier, res, deep=False):
     qs.add("$[?length(" + "value(" * 100 + "@" + ")" * 100 + ")==1]")
     # characters that mean something to str.format / % formatting, echoed in error messages
     qs.update(["$.a{", "$.store.}", "$[{]", "$..{", "$[?@.a == 1 }]", '{"a": 1}', "$.a%", "$[%s]", "$.{0}", "$[?@.{a}]", "$.a{}", "$['a'}", "${", "$}", "$[?{}]", "$.%(a)s"])
+    # every spelling of a number (valid or not for the place) in every place a number can stand: index, the three slice
+    # components, comparison operand, function argument, nested in filters and under descendant segments, with blanks
+    numforms = ["1e2", "1E+2", "1e+1", "2e0", "1e-2", "-1e1", "1.0", "1.5", "-0", "-0.0", "01", "-01", "1e", "1e+", "1.", ".5", "--1", "+1", "1_0",
+                "0x10", "\u0661", "1\u0662", "1e2e3", "1e\u0663", "1.e2", "1e2.5", "9" * 30, "-" + "9" * 30, "1e" + "9" * 6, "1e400", "0e0", "-",
+                "1e 2", "1 e2", "0b1", "1j", "1L", "١٢", "1E2", "1e02", "1e-0"]
+    numplaces = ["$[{}]", "$[{}:]", "$[:{}]", "$[::{}]", "$[{}:2]", "$[0:{}]", "$[1:{}:2]", "$[ {} : 2 ]", "$[\n:\n{}\n]", "$..[{}:]", "$..[{}]", "$[0, {}:]", "$[{}, 0]",
+                 "$[?@[{}:]]", "$[?@[{}]]", "$[?@[:{}] ]", "$[?count(@[:{}]) > 1]", "$[?@.a == {}]", "$[?{} < @.a]", "$[?@[{}] == 1]", "$[?length(@) > {}]",
+                 "$[?length({}) == 1]", "$[?@[?@[::{}]]]", "$.a[{}:{}]", "$[{}:{}:{}]", "$[?@.a == -{}]", "$[?{}]"]
+    for nf_ in numforms:
+        for pl in numplaces:
+            qs.add(pl.replace("{}", nf_))
     qs = sorted(q for q in qs if len(q) <= 1024)
     env = real.make_env(FULL_ENV)
     reals, out = compile_cases(res, FULL_ENV, qs, "C13")
@@ -596,7 +607,14 @@ def explore_c19(rng, tier, res, deep=False):
         for j in range(1, len(q)):
             qs.add(q[:j])
     qs.update(["$['", '$["', "$[?@.a == '", '$[?@.a == "', "$[\n'", "$['a", "$['a\\", "$['\\u12", "$[?match(@.a, '", "$.a['b']['"])
-    qs = sorted(qs)
+    # raw control characters inside string literals, not at the start of the literal (the error position is then one
+    # the decoder computes while walking its own copy of the literal's text), names and filter literals, either quote
+    fixed = []
+    for body in ("ab\x00", "a\tb", "abc\n", "\x1fz", "x y\r", "a\\n\x01", "\u00e9\x02", "a'\x03".replace("'", ""), "ab\x00cd"):
+        for style in "'\"":
+            lit = style + body + style
+            fixed += [f"$[{lit}]", f"$.a[{lit}]", f"$[?@.a == {lit}]", f"$\n[\n{lit}\n]", f"$[?match(@.a, {lit})]", f"$['k', {lit}]"]
+    qs = fixed + sorted(qs - set(fixed))
     # the same literal / name / number texts compiled before at OTHER offsets (valid queries, long prefixes, other
     # lines), then rejected queries in which those texts sit where they are not allowed: a position reported for an
     # error must be a position in the query being compiled, whatever the environment has compiled before
